@@ -342,9 +342,16 @@ def instances(maxw):  # noqa: C901
               ['let', [['x', 'b']],
                ['exists', [['b', 'Int']], ['=', ['+', 'x', '1'], 'b']]],
               ['let', [['x', ['+', 'a', '1']], ['y', 'x']],
-               ['+', 'x', 'y']]):
-        add('LetSubstitution', Inst(di + [['declare-const', 'x', 'Int']], t,
-                                    fi + [('x', 'Int')]))
+               ['+', 'x', 'y']],
+              # the bound term mentions the very name it is bound to: inside
+              # the let that name is the bound one
+              ['let', [['x', ['+', 'x', '1']]], ['*', 'x', '2']],
+              ['let', [['a', ['+', 'a', '1']]], ['*', 'a', '2']],
+              ['let', [['x', ['*', 'x', 'a']], ['y', ['+', 'y', 'x']]],
+               ['-', 'x', 'y']]):
+        add('LetSubstitution', Inst(di + [['declare-const', 'x', 'Int'],
+                                          ['declare-const', 'y', 'Int']], t,
+                                    fi + [('x', 'Int'), ('y', 'Int')]))
     # -- selector of constructor
     dt = [['declare-datatype', 'T', [['C', ['s1', 'Int'], ['s2', 'Int']],
                                      ['D']]]]
